@@ -213,7 +213,7 @@ reg("C07",
       for k, t in (("n2_1_1", "quick"), ("n3_1_2", "quick"), ("n3_2_2", "quick"), ("n1_0_1", "quick"), ("n4_1_1", "thorough"), ("n2_2_0", "thorough"))],
     *[H("c07", "c07_lockstep_3_%s" % k, tier=t, bounds="3 calls; model message length %s, fragment lengths %s+%s+%s (concrete); bytes, content types, operation kinds symbolic" % tuple(k[1:].split("_")),
         stubs=["parse_tls_record_with_header (model callee)"], funcs=_RP, timeout=3000, mem=20)
-      for k, t in (("n3_1_1_1", "thorough"), ("n3_0_2_1", "thorough"), ("n4_2_1_1", "thorough"), ("n4_1_0_3", "thorough"), ("n2_1_1_1", "thorough"))],
+      for k, t in (("n3_1_1_1", "quick"), ("n3_0_2_1", "quick"), ("n4_2_1_1", "thorough"), ("n4_1_0_3", "thorough"), ("n2_1_1_1", "thorough"))],
     *[H("c07", "c07_heartbeat_e2e_%s" % k, tier=t, bounds="7-byte heartbeat payload split in 2 (%s, concrete); real payload parser; type, payload, padding symbolic" % k,
         funcs=_RP + ["parse_tls_record_with_header", "parse_tls_message_heartbeat"], timeout=900, mem=12)
       for k, t in (("cut0_pl1", "quick"), ("cut0_pl4", "quick"))],
@@ -459,12 +459,10 @@ reg("C01",
     H("c01", "c01_debug_ext_sct", c01=True, tier="thorough", timeout=900, mem=12, bounds="Debug formatting of a value with 2-byte symbolic slices and symbolic scalars", funcs=["<ext_sct as Debug>::fmt"]),
     H("c01", "c01_debug_ext_unknown", c01=True, tier="thorough", timeout=900, mem=12, bounds="Debug formatting of a value with 2-byte symbolic slices and symbolic scalars", funcs=["<ext_unknown as Debug>::fmt"]),
     H("c01", "c01_debug_ext_esni", c01=True, tier="thorough", timeout=900, mem=12, bounds="Debug formatting of a value with 2-byte symbolic slices and symbolic scalars", funcs=["<ext_esni as Debug>::fmt"]),
-    H("c01", "c01_debug_server_hello", c01=True, tier="thorough", timeout=900, mem=12, bounds="Debug formatting of a value with 2-byte symbolic slices and symbolic scalars", funcs=["<server_hello as Debug>::fmt"]),
     H("c01", "c01_debug_new_session_ticket", c01=True, tier="thorough", timeout=900, mem=12, bounds="Debug formatting of a value with 2-byte symbolic slices and symbolic scalars", funcs=["<new_session_ticket as Debug>::fmt"]),
     H("c01", "c01_debug_raw_certificate", c01=True, tier="thorough", timeout=900, mem=12, bounds="Debug formatting of a value with 2-byte symbolic slices and symbolic scalars", funcs=["<raw_certificate as Debug>::fmt"]),
     H("c01", "c01_debug_client_key_exchange", c01=True, tier="thorough", timeout=900, mem=12, bounds="Debug formatting of a value with 2-byte symbolic slices and symbolic scalars", funcs=["<client_key_exchange as Debug>::fmt"]),
     H("c01", "c01_debug_digitally_signed", c01=True, tier="thorough", timeout=900, mem=12, bounds="Debug formatting of a value with 2-byte symbolic slices and symbolic scalars", funcs=["<digitally_signed as Debug>::fmt"]),
-    H("c01", "c01_debug_dh_params", c01=True, tier="thorough", timeout=900, mem=12, bounds="Debug formatting of a value with 2-byte symbolic slices and symbolic scalars", funcs=["<dh_params as Debug>::fmt"]),
     H("c01", "c01_debug_heartbeat", c01=True, tier="thorough", timeout=900, mem=12, bounds="Debug formatting of a value with 2-byte symbolic slices and symbolic scalars", funcs=["<heartbeat as Debug>::fmt"]),
     # every differential harness runs with all Kani default checks; for C01 an unwinding-assertion failure is a violation too.
     # quick tier: the cheaper half; thorough tier: all of them.
